@@ -51,7 +51,7 @@ func certs(cs ...*world.Cert) []*x509.Certificate {
 
 func faults02() []fault02 {
 	chain := func(w *world.World, cs ...*world.Cert) { w.Q.Chain = world.ChainPEM(false, cs...) }
-	return []fault02{
+	fl := []fault02{
 		// ---- pools
 		{"pool-own-root", "accept", func(a, b *world.World, r *mrand.Rand) {}},
 		{"pool-own-and-other-root", "accept", func(a, b *world.World, r *mrand.Rand) { a.Roots = certs(b.PKI.Root, a.PKI.Root) }},
@@ -230,6 +230,52 @@ func faults02() []fault02 {
 			chain(a, leaf, a.PKI.Inter, a.PKI.Root)
 		}},
 	}
+	return append(fl, edgeTimeFaults02()...)
+}
+
+// edgeTimeFaults02: the quote's chain is not under the caller's roots AND the verification time lies just outside the validity
+// of the quote's leaf (which was issued later than its CA, as real PCK certificates are). Whatever a verifier makes of the
+// time, no path to a trusted root exists: a "certificate not valid at this time" answer from a path builder says nothing
+// about the path, so tolerating it (clock skew) must not stand in for the root check.
+func edgeTimeFaults02() []fault02 {
+	var out []fault02
+	pools := []struct {
+		name string
+		set  func(a, b *world.World)
+	}{
+		{"other-root", func(a, b *world.World) { a.Roots = certs(b.PKI.Root) }},
+		{"empty", func(a, b *world.World) { a.Roots = []*x509.Certificate{} }},
+		{"nil-embedded-intel-root", func(a, b *world.World) { a.Roots = nil }},
+	}
+	edges := []struct {
+		name  string
+		after bool
+		d     time.Duration
+	}{
+		{"1s-before-leaf-notbefore", false, time.Second}, {"30s-before-leaf-notbefore", false, 30 * time.Second}, {"2m-before-leaf-notbefore", false, 2 * time.Minute},
+		{"299s-before-leaf-notbefore", false, 299 * time.Second}, {"1h-before-leaf-notbefore", false, time.Hour}, {"25h-before-leaf-notbefore", false, 25 * time.Hour},
+		{"1s-after-leaf-notafter", true, time.Second}, {"2m-after-leaf-notafter", true, 2 * time.Minute}, {"25h-after-leaf-notafter", true, 25 * time.Hour},
+	}
+	for _, p := range pools {
+		for _, e := range edges {
+			p, e := p, e
+			out = append(out, fault02{"pool-" + p.name + "-at-leaf-validity-edge/" + e.name, "reject", func(a, b *world.World, r *mrand.Rand) {
+				// the leaf's own window lies strictly inside its CA's
+				nb, na := world.Epoch.Add(-72*time.Hour), world.Epoch.Add(72*time.Hour)
+				leaf := world.Reissue(a.PKI.Leaf, a.PKI.Inter, func(t *x509.Certificate) { t.NotBefore, t.NotAfter = nb, na })
+				a.Q.Chain = world.ChainPEM(false, leaf, a.PKI.Inter, a.PKI.Root)
+				at := nb.Add(-e.d)
+				if e.after {
+					at = na.Add(e.d)
+				}
+				for i := range a.Times {
+					a.Times[i] = at
+				}
+				p.set(a, b)
+			}})
+		}
+	}
+	return out
 }
 
 // ------------------------------------------------------------ root-of-trust configurations
